@@ -69,6 +69,28 @@ def bin_completion(binner: Binner, binsize: float, items: List[Any])->BinsArray:
     Bin #2: [94, 5], sum=99.0
     Bin #3: [93, 4], sum=97.0
     Bin #4: [8], sum=8.0
+
+    Items with names:
+    >>> from prtpy import pack
+    >>> pack(algorithm=bin_completion, binsize=100, items={"a":6, "b":12, "c":15, "d":40, "e":43, "f":82})
+    [['f', 'b', 'a'], ['e', 'd', 'c']]
+    """
+    # The search works on numbers: run it on the item values, then put the items themselves into the bins.
+    items = list(items)
+    _, lists_of_values = _bin_completion_of_values(BinnerKeepingContents(), binsize, [binner.valueof(item) for item in items])
+    items_with_value = {}
+    for item in items:
+        items_with_value.setdefault(binner.valueof(item), []).append(item)
+    bins = binner.new_bins(len(lists_of_values))
+    for ibin, values in enumerate(lists_of_values):
+        for value in values:
+            binner.add_item_to_bin(bins, items_with_value[value].pop(0), ibin)
+    return bins
+
+
+def _bin_completion_of_values(binner: Binner, binsize: float, items: List[float])->BinsArray:
+    """
+    The bin-completion search itself. The items are numbers (each item is its own value).
     """
     # Test if there is an item with a value larger than binsize.
     for item in items:
